@@ -530,6 +530,12 @@ C09_live(g, o, ln) ==
       /\ ((g.spawned \ (g.reaped \cup g.killed)) \ g.released)
             = { p \in AllTracked(o) : KSt(o, p) = "run" }
       /\ \A p \in (g.envDied \ g.released) : p \notin AllTracked(o) => p \in g.reaped
+\* a kill event says "this worker is being terminated": once nothing is in flight any more, a worker with a kill
+\* event and no reap event is not among the running workers (evaluated at EVERY quiet environment line, not only at
+\* the probes: the evidence is gone as soon as the worker is really terminated later)
+C09_killev(g, o, ln) ==
+   (ln.cb = 0 /\ ln.k \in {"tick", "req", "probe", "end"} /\ Quiet(o) /\ ~g.blocked) =>
+      \A p \in (g.killed \ (g.reaped \cup g.released)) : ~(p \in AllTracked(o) /\ KSt(o, p) = "run")
 LastEvOf(g, lname) == IF \E i \in 1..Len(g.lastEv) : g.lastEv[i][1] = lname
                       THEN g.lastEv[CHOOSE i \in 1..Len(g.lastEv) : g.lastEv[i][1] = lname][2] ELSE "none"
 C09_startstop(g, o2, ln) ==
@@ -740,6 +746,7 @@ Clauses(g, o, ln, o2, g2) ==
     C06_reply |-> C06_reply(g, ln), C06_status |-> C06_status(ln), C06_all |-> C06_all(g, ln),
     C08_done |-> C08_done(g2, o2, ln),
     C09_spawn |-> C09_spawn(g, ln), C09_reap |-> C09_reap(g, o, ln), C09_live |-> C09_live(g2, o2, ln),
+    C09_killev |-> C09_killev(g2, o2, ln),
     C09_startstop |-> C09_startstop(g, o2, ln), C09_status |-> C09_status(g, ln, o2),
     C10_wedge |-> C10_wedge(g, o2, ln), C10_refuse |-> C10_refuse(g, o, ln, o2), C10_accept |-> C10_accept(ln), C10_held |-> C10_held(g, o, ln, o2),
     C11_unchanged |-> C11_unchanged(g, ln, o2),
